@@ -154,3 +154,12 @@ CASES += [
         ("quantarhei/spectroscopy/absbase.py", "        with energy_units(\"int\"):\n            waxis = FrequencyAxis(omin, length, step)",
          "        with energy_units(\"int\"):\n            w0 = omin\n            waxis = FrequencyAxis(w0, length, step)", 1)]},
 ]
+
+CASES += [
+    {"name": "state generator yields inside an internal-units block (seeded change of round 6)", "kind": "mutant", "rule": "C05-U17", "edits": [
+        ("quantarhei/builders/aggregate_base.py", "        a = 0\n        for ess1 in self.elsignatures(mult=mult, mode=mode):\n            es1 = self.get_ElectronicState(ess1, a)\n            yield a,es1\n            a += 1\n",
+         "        a = 0\n        with energy_units(\"int\"):\n            for ess1 in self.elsignatures(mult=mult, mode=mode):\n                es1 = self.get_ElectronicState(ess1, a)\n                yield a,es1\n                a += 1\n", 1)]},
+    {"name": "state generator makes the state under internal units and yields outside", "kind": "twin", "edits": [
+        ("quantarhei/builders/aggregate_base.py", "        a = 0\n        for ess1 in self.elsignatures(mult=mult, mode=mode):\n            es1 = self.get_ElectronicState(ess1, a)\n            yield a,es1\n            a += 1\n",
+         "        a = 0\n        for ess1 in self.elsignatures(mult=mult, mode=mode):\n            with energy_units(\"int\"):\n                es1 = self.get_ElectronicState(ess1, a)\n            yield a,es1\n            a += 1\n", 1)]},
+]
